@@ -1299,25 +1299,6 @@ Proof.
 Qed.
 End SITES.
 
-Print Assumptions sb_join_join.
-Print Assumptions group_args_single.
-Print Assumptions group_args_comma.
-Print Assumptions command_arguments_site.
-Print Assumptions condition_operand_site.
-Print Assumptions comparison_value_site.
-Print Assumptions switch_sites.
-Print Assumptions table_entry_site.
-Print Assumptions table_entries_site.
-Print Assumptions mart_items_site.
-Print Assumptions const_definition_site.
-Print Assumptions command_name_verbatim.
-Print Assumptions label_name_verbatim.
-Print Assumptions identifier_statement_verbatim.
-Print Assumptions names_verbatim_everywhere.
-Print Assumptions movement_steps_verbatim.
-Print Assumptions moves_operator_verbatim.
-Print Assumptions text_content_verbatim.
-Print Assumptions command_args_implicit.
 
 (* ---------- all the definitions of a program: the table grows by const_definition_site steps only ---------- *)
 Section PROGRAM.
@@ -1386,7 +1367,6 @@ Proof.
     eapply parse_const_advs; [exact E1|apply advs_refl].
 Qed.
 End PROGRAM.
-Print Assumptions program_constants_site.
 
 (* the two standing hypotheses hold in the compiler (Compile.compile): the lexer's output ends with its EOF token, and the
    real format() parser only advances *)
@@ -1396,8 +1376,6 @@ Proof. apply ProgSrc.lex_eof. Qed.
 Lemma hyp_parse_format_holds fc cli_font cli_maxlen ee :
   forall ts tk v sty ts', Format.parse_format fc cli_font cli_maxlen ee ts = Ok (tk, v, sty, ts') -> forall a, advs a ts -> advs a ts'.
 Proof. exact (ProgSrc.parse_format_advs fc cli_font cli_maxlen ee). Qed.
-Print Assumptions hyp_eof_ended_holds.
-Print Assumptions hyp_parse_format_holds.
 
 (* ---------- the hypotheses are satisfiable: concrete streams from the lexer ---------- *)
 Module Examples.
